@@ -315,7 +315,7 @@ def replay(case):
 def main(tier="quick", seed=0, only=None):
     chk = Check("C12", "model_checking", MODULE, tier, seed)
     archs = build_archives()
-    depth = 4 if tier == "quick" else 6
+    depth = 4 if tier == "quick" else 7
     configs = []
     for aid in ("A1", "A3", "AZ", "AE"):
         for mode in ("path", "bytesio", "fileobj"):
